@@ -8,7 +8,7 @@ use serde_json::{json, Value};
 
 pub struct C07;
 
-fn restate_rule(t: &mut Tape, segs: Vec<(String, MSeg)>) -> Rule {
+pub fn restate_rule(t: &mut Tape, segs: Vec<(String, MSeg)>) -> Rule {
     let mut g = RuleGen::new(RuleProfile { insertion: false, variables: false, ..RuleProfile::FULL }, segs);
     let k = 1 + t.weighted(&[5, 3, 2]);
     let mut input = vec![]; let mut output = vec![];
@@ -51,7 +51,7 @@ impl Property for C07 {
     fn rule(&self) -> String {
         "(a) restating rules `X1=1 … Xk=k > 1 … k` (k ≤ 3; Xi ∈ matrix (some with alphas), group, `[]`, `%`(+stress/tone parameters), structure) with environments and exceptions from the full grammar, on generated words with long segments, tones, both stresses, rich-pool segments: the structural result must equal the input (quick 2M, thorough 20M). \
          (b) exhaustive alpha identities: `[αF] > [αF]`, `[-αF] > [-αF]` for the 26 features, 5 nodes, long, overlong, stress, sec.stress and `%:[αstress] > [αstress]`, `%:[αsecstress] > [αsecstress]` over every base and base+1-diacritic segment (alone and inside `pa.S.ta`) and over the 36 suprasegmental states of C05: result == input. \
-         (c) `A > B / X=1 _ 1` for A,B literals and X ∈ {[], C, V, [+voice], [-cont]} on all words ≤4 segments over {p,t,a,i} in every syllabification and random words, against a 10-line neighbour model (left neighbour, as already rewritten, matches X and the right neighbour is bundle-identical); `A > B / %=1 _ 1` against the syllable version (A alone in its syllable between two identical syllables). \
+         (c) `A > B / X=1 _ 1` for A,B literals and X ∈ {[], C, V, [+voice], [-cont]} on all words ≤4 segments over {p,t,a,i} in every syllabification and random words, against a 10-line neighbour model (left neighbour, as already rewritten, matches X and the right neighbour is bundle-identical); `A > B / %=1 _ 1` against the syllable version (A alone in its syllable between two identical syllables); `a > i / <[] []>=1 _ 1`, `a > i / <C V>=1 _ 1` on all `XY.a.ZW` and `% > 1 / <..>=1 _` on all `XY.ZW` over {p,t,a,i} (a structure bound in the before-context, which is matched on the reversed word, must be captured in reading order); the same with `%=1`, and with the two syllables carrying equal or different tones / secondary stress (a reference matches only a syllable that also agrees in tone and stress). \
          Non-trivial: the rule's input matched at least once (observed with a marker rule of the same input and environment) for (a); the state/segment is one on which the alpha binds for (b); the model predicts a change for (c).".into()
     }
     fn explore(&self, ctx: &mut Ctx) {
@@ -84,6 +84,7 @@ impl Property for C07 {
         for (a, b) in [("a", "i"), ("p", "t"), ("a", "p"), ("t", "a")] { for x in xs { idx += 1; if idx % ctx.nshards != ctx.shard { continue }
             run_case(self, ctx, json!({"kind": "neighbour", "a": a, "b": b, "x": x, "words": "all4"})); } }
         for (a, b) in [("a", "i"), ("p", "t")] { idx += 1; if idx % ctx.nshards != ctx.shard { continue } run_case(self, ctx, json!({"kind": "syll-neighbour", "a": a, "b": b, "words": "all4"})); }
+        for kind in ["struct-neighbour", "struct-copy"] { for st in ["<[] []>", "<C V>", "%"] { idx += 1; if idx % ctx.nshards != ctx.shard { continue } run_case(self, ctx, json!({"kind": kind, "st": st})); } }
     }
     fn check(&self, case: &Value) -> Outcome {
         match case["kind"].as_str().unwrap_or("") {
@@ -145,6 +146,35 @@ impl Property for C07 {
                         Ok(Ok(g)) => { let g = MWord::from_asca(&g); if g != expect { return Outcome::fail(format!("{kind}|variable in the context matched a non-identical element or missed an identical one"), json!({"rule": rule, "word": text, "expected": expect.show(), "got": g.show()})) } if expect != mw { changed = true; } }
                     }
                 }
+                if changed { Outcome::pass_nt(hash64(&rule)) } else { Outcome::pass() }
+            }
+            kind @ ("struct-neighbour" | "struct-copy") => {
+                // a structure bound to a variable in the before-context (matched on the reversed word) must be captured in reading order:
+                // `a > i / <..>=1 _ 1` fires exactly between identical syllables, `% > 1 / <..>=1 _` copies the syllable as it is written
+                let st = case["st"].as_str().unwrap_or("<[] []>");
+                let t = tables(); let (a, b) = (t.by_name["a"], t.by_name["i"]);
+                let letters = ["p", "t", "a", "i"];
+                let pairs: Vec<(String, Vec<MSeg>)> = letters.iter().flat_map(|x| letters.iter().filter(move |y| *y != x).map(move |y| (format!("{x}{y}"), vec![t.by_name[*x], t.by_name[*y]]))).collect();
+                let fits = |x: &[MSeg]| st != "<C V>" || (group_matches('C', &x[0]) && group_matches('V', &x[1]));  // `%` and `<[] []>` fit every two-segment syllable
+                let rule = if kind == "struct-neighbour" { format!("a > i / {st}=1 _ 1") } else { format!("% > 1 / {st}=1 _") };
+                let mut changed = false;
+                // decorations of the two syllables (tone / secondary stress): a captured syllable equals another one only if tone and stress agree as well
+                let decos: [(&str, &str); 6] = [("", ""), ("5", ""), ("", "5"), ("5", "5"), ("5", "51"), ("", "ˌ")];
+                for (xt, xs) in &pairs { for (yt, ys) in &pairs { for (dl, dr) in decos {
+                    if kind == "struct-copy" && !(dl.is_empty() && dr.is_empty()) { continue }
+                    let (rs, rt) = if dr == "ˌ" { ("ˌ", "") } else { (".", dr) };
+                    let text = if kind == "struct-neighbour" { format!("{xt}{dl}.a{rs}{yt}{rt}") } else { format!("{xt}.{yt}") };
+                    let Ok(Ok(w)) = api::parse_word(&text) else { continue };
+                    let mw = MWord::from_asca(&w);
+                    let mut expect = mw.clone();
+                    if kind == "struct-neighbour" { if xs == ys && dl == dr && fits(xs) { expect.sylls[1].segs = vec![b]; } } else if fits(xs) { expect.sylls[1].segs = xs.clone(); }
+                    let _ = a;
+                    match api::apply_rules(&[rule.clone()], &w) {
+                        Err(ab) => return Outcome::fail(format!("{kind}|{}", ab.signature()), json!({"rule": rule, "word": text})),
+                        Ok(Err(e)) => return Outcome::fail(format!("{kind}|error"), json!({"rule": rule, "word": text, "error": format!("{e:?}")})),
+                        Ok(Ok(g)) => { let g = MWord::from_asca(&g); if g != expect { return Outcome::fail(format!("{kind}|structure variable bound in the before-context does not reproduce the syllable it matched"), json!({"rule": rule, "word": text, "expected": expect.show(), "got": g.show()})) } if expect != mw { changed = true; } }
+                    }
+                } } }
                 if changed { Outcome::pass_nt(hash64(&rule)) } else { Outcome::pass() }
             }
             _ => Outcome::skip("malformed case"),
